@@ -117,9 +117,9 @@ def gen_case(rng, params, idx):
             seen.add(T.tname(t))
             types.append(t)
     gens = []
-    for _ in range(10):
+    for _ in range(16):
         a, b = rng.choice(plain), rng.choice(plain)
-        gens.append([rng.choice(["list", "dict", "nest", "dict2", "tuple2", "tuple2n"]), a, b])
+        gens.append([rng.choice(["list", "dict", "nest", "dict2", "tuple2", "tuple2n", "dictL", "tupleL", "tupleLn", "tuple3"]), a, b])
     return {"hier": hier, "types": types, "generics": gens, "progseed": rng.randrange(1 << 30)}
 
 
@@ -382,7 +382,11 @@ def check_case(spec, res):
         pairs = {"list": (list[a], list[b], base), "dict": (dict[str, a], dict[str, b], base),
                  "nest": (list[list[a]], list[list[b]], base),
                  "dict2": (dict[a, b], dict[b, a], mixed), "tuple2": (tuple[a, b], tuple[b, a], mixed),
-                 "tuple2n": (normalize_type(tuple[a, b], None), normalize_type(tuple[b, a], None), mixed)}[shape]
+                 "tuple2n": (normalize_type(tuple[a, b], None), normalize_type(tuple[b, a], None), mixed),
+                 # an ordered argument *followed* by identical ones
+                 "dictL": (dict[a, str], dict[b, str], base), "tupleL": (tuple[a, str], tuple[b, str], base),
+                 "tupleLn": (normalize_type(tuple[a, str, int], None), normalize_type(tuple[b, str, int], None), base),
+                 "tuple3": (tuple[a, int, b], tuple[b, int, a], mixed)}[shape]
         res.ev()
         res.count("generic_L4")
         got = safe(pairs[0], pairs[1])
